@@ -222,6 +222,29 @@ def prod_axioms(rank, app):
     return out
 
 
+def prod_pair_axioms(rank, a1, a2):
+    """Monotonicity of the element count: two occurrences whose argument multisets differ in exactly one element."""
+    A, B = list(a1.children()), list(a2.children())
+    restA, restB = list(A), []
+    for b in B:
+        hit = None
+        for k, a in enumerate(restA):
+            if a.eq(b):
+                hit = k
+                break
+        if hit is None:
+            restB.append(b)
+        else:
+            restA.pop(hit)
+    if len(restA) != 1 or len(restB) != 1:
+        return []
+    x, y = restA[0], restB[0]
+    common = list(B)
+    common.remove(y)
+    nonneg = [c >= 0 for c in common]
+    return [z3.Implies(z3.And(*(nonneg + [0 <= x, x <= y])), a1 <= a2), z3.Implies(z3.And(*(nonneg + [0 <= y, y <= x])), a2 <= a1)]
+
+
 def concat_block_axioms(rank, app):
     """Row-major concatenation along axis 0 (DESIGN 2.4), block form: for a lens whose first extent is a product m*p and a
     first index of the shape m*r + i0:  FLAT([m*p, rest]; m*r + i0, rest_idx) = r*PROD([m, rest]) + FLAT([m, rest]; i0, rest_idx)."""
